@@ -267,6 +267,22 @@ func (d *decompressor) nextBlockAt(off int64, rs io.ReadSeeker) *decompressor {
 // expectedMemberSize returns the size of the BGZF conformant gzip member.
 // It returns -1 if no BGZF block size field is found.
 func expectedMemberSize(h gzip.Header) int {
+	// The extra field is a sequence of subfields (two identifier
+	// bytes, a two byte length, the payload); the block size is the
+	// payload of the subfield BC of length two. Another subfield may
+	// hold the same four bytes in its payload.
+	for x := h.Extra; len(x) >= 4; {
+		n := int(x[2]) | int(x[3])<<8
+		if len(x) < 4+n {
+			break
+		}
+		if x[0] == bgzfExtraPrefix[0] && x[1] == bgzfExtraPrefix[1] && n == 2 {
+			return (int(x[4]) | int(x[5])<<8) + 1
+		}
+		x = x[4+n:]
+	}
+	// Not a well formed sequence of subfields, or no BC subfield
+	// among them: fall back to searching for the bytes.
 	i := bytes.Index(h.Extra, bgzfExtraPrefix)
 	if i < 0 || i+5 >= len(h.Extra) {
 		return -1
